@@ -219,7 +219,13 @@ class Interp:
         if k == "UnaryOperator":
             op = e.get("opcode")
             if op in ("++", "--"):
-                raise Unsupported("increment at line %s" % e.get("line"))
+                # increment / decrement of a plain number held in the environment
+                old = self.ev(ks[0])
+                if isinstance(old, bool) or not isinstance(old, (int, float)):
+                    raise Unsupported("increment of a non-numeric value at line %s" % e.get("line"))
+                new = old + (1 if op == "++" else -1)
+                self._assign(ks[0], new)
+                return old if e.get("isPostfix") else new
             if op == "&":
                 return Ref(self.member_key(ks[0]))
             if op == "*":
